@@ -70,6 +70,8 @@ def run(ctx):
         hists += recs
     for h in hists:
         h.setdefault("race", "")
+        if not h.get("events"):
+            h["events"] = []
     fails = c17.validate(ctx, hists)
     nsend = sum(1 for h in hists for s in h["steps"] if s["fn"] in ("Send", "SendPar"))
     ctx.log("midicatdrv: %d histories, %d calls, %d sends, %d rejected" % (len(hists), sum(len(h["steps"]) for h in hists), nsend, len(fails)))
